@@ -79,10 +79,11 @@ def run_history(case, ctx, mon):
     real = [state.make(cfg) for _ in range(n)]
     ghost = [Counter() for _ in range(n)]
     pr = prober(w, d)
-    universe = ops.universe_of([e[1] for e in case["events"] if isinstance(e[0], int)], extra=[unhx(s) for s in case["strangers"]])
+    all_ops = [e[1] for e in case["events"] if isinstance(e[0], int)] + [o for e in case["events"] if e[0] == "tmpmerge" for o in e[2]]
+    universe = ops.universe_of(all_ops, extra=[unhx(s) for s in case["strangers"]])
     cells = {k: pr.cells(k) for k in universe}
     # non-triviality: some pair of *added* keys shares a cell
-    added = ops.universe_of([e[1] for e in case["events"] if isinstance(e[0], int)])
+    added = ops.universe_of(all_ops)
     shared = any(len({cells[k][r] for k in added}) < len(added) for r in range(d)) if len(added) > 1 else False
     saturating = False
     for ev in case["events"]:
@@ -101,11 +102,27 @@ def run_history(case, ctx, mon):
             mon.count("saveloads")
             mon.count("saveloads_shm" if ev[2] else "saveloads_mem")
             touched = [i]
+        elif ev[0] == "copy":
+            i = ev[1]
+            if not hasattr(real[i], "shm"):
+                real[i] = mon.api(state.duplicate, real[i], ev[2])
+                mon.count("copies:" + ev[2])
+            touched = [i]
+        elif ev[0] == "tmpmerge":
+            # a temporary sketch is filled, merged in and dropped (its address may be reused by the next temporary)
+            i = ev[1]
+            tmp = state.make(cfg)
+            tg = Counter()
+            for op in ev[2]:
+                ops.apply_with_ghost(mon, tmp, op, tg)
+            mon.api(real[i].merge, tmp)
+            ghost[i] = ghost[i] + tg
+            del tmp
+            mon.count("temporary_operands_merged")
+            touched = [i]
         else:
             i, op = ev
-            mon.api(ops.apply_op, real[i], op)
-            for k, v in ops.effects(op):
-                ghost[i][k] += v
+            ops.apply_with_ghost(mon, real[i], op, ghost[i])
             mon.count("ops:" + op[0])
             touched = [i]
         for i in touched:
@@ -279,6 +296,10 @@ def gen_cases(ctx):
         for vals in ((40000, 40000), (65535, 1), (200, 100), (2**24 - 1, 2), (2**31 - 5, 2**31 - 5), (65535, 65535)):
             yield {"type": "rowpair", "width": pick(rng, [3, 5, 8]), "depth": max(r + 1, pick(rng, [2, 4])), "row": r, "values": list(vals),
                    "seed": int(rng.integers(0, 2**31))}
+    # one update() with a list of 65536+ items over a key family with NUL-suffixed siblings (size-gated fast paths)
+    fam = [b"ab", b"ab\x00", b"\x00", b"", b"q", b"ab\x00\x00", b"\xff\x00"]
+    yield {"type": "history", "width": 64, "depth": 4, "n": 1, "strangers": [hx(b"zz")],
+           "events": [[0, ["add", hx(b"ab"), 2]], [0, ["ulist_rep", [hx(k) for k in fam], pick(rng, [65536, 70000, 131072 + 5])]], [0, ["add", hx(b"q"), 1]]]}
     for w in ([64] if ctx.quick else [pick(rng, [25, 64, 100, 500, 2500])]):
         yield {"type": "zipf", "width": w, "depth": 8, "n": 3, "vocab": 1000, "stream": 8000 if ctx.quick else 25000, "seed": int(rng.integers(0, 2**31))}
     if ctx.quick or ctx.shard < 4:
